@@ -563,13 +563,31 @@ def gen_latency(rng):
 
 def gen_bundle(rng, depth=0, as_arg=False, order='any', hostile=None):
     """A bundle list [time, elements...].  order: 'ok' makes nested times
-    non-decreasing along every path (acceptable), 'any' draws them freely."""
+    non-decreasing along every path (acceptable), 'any' draws them freely,
+    'tie' gives EXACTLY equal times to (most) bundles of all levels - one
+    latency everywhere, or None / one negative value (immediately) everywhere
+    - with sibling nested bundles and messages after them, depth 2-4."""
+    tie = rng.choice([None, None, -1, 0, 0.0, 0.5, 0.2, 3, rng.uniform(0, 2)])
+
     def rec(d, parent):
         t = gen_latency(rng)
         if order == 'ok' and parent != 'top':
             pimm = parent is None or parent < 0
             if not pimm:
                 t = parent + rng.choice([0, 0, 0.25, 1, rng.uniform(0, 2)])
+        if order == 'tie':
+            t = tie if parent == 'top' else parent
+            if t is not None and t >= 0 and rng.random() < 0.15:
+                t = t + rng.choice([0.25, 1])        # a few later ones among
+            n = rng.choice([2, 3, 3, 4, 5])
+            els = []
+            for k in range(n):
+                p = (0.55 if d < depth + 2 else 0.3) if d < depth + 4 else 0
+                if rng.random() < p or (d == depth and k == 1):
+                    els.append(rec(d + 1, t))
+                else:
+                    els.append(gen_msg(rng, max(d, 1), maxargs=2))
+            return [t] + els
         n = rng.choice([1, 1, 2, 3, rng.randint(0, 6)])
         if as_arg and d == depth:
             n = max(n, 1)
